@@ -22,7 +22,11 @@ func checkC08(c *Ctx, r *Report) {
 	r.rule("C08.SIB", "inline fragments and fragment spreads use the same set of applicability tests")
 	r.rule("C08.META", "who-may-write Object.meta: frozen table; every write outside construction is write-once")
 	r.rule("C08.BIND", "the Go field/method binding of a FieldDef is computed from the object type that owns that FieldDef")
-	importRules(c, r, "C01", "C08.TYPENAME", "__typename stores Name() of the type the value is resolved as (C01.TYPENAME): the dispatcher hands the concrete member type to the selection walker, so the name reported and the fragments that apply agree", "C01.TYPENAME")
+	importRulesFrom(c, r, "C01", func(c *Ctx, sub *Report) {
+		if a := c.anchors(); a != nil && a.field != nil {
+			c01Typename(c, sub, a)
+		}
+	}, "C08.TYPENAME", "__typename stores Name() of the type the value is resolved as (C01.TYPENAME): the dispatcher hands the concrete member type to the selection walker, so the name reported and the fragments that apply agree", "C01.TYPENAME")
 	c08OneBinding(c, r)
 	a := c.anchors()
 	if !requireAnchors(r, "C08.DISPATCH", a) {
@@ -37,6 +41,7 @@ func checkC08(c *Ctx, r *Report) {
 	c08Consist(c, r, a)
 	c08Meta(c, r)
 	c08Bind(c, r)
+	importRulesFrom(c, r, "C06", func(c *Ctx, sub *Report) { c06G1(c, sub, a) }, "C08.ELEMTYPE", "every element of a list is handed to the type dispatcher with the list's declared element type (the dispatcher-origin part of C06.G1): the concrete type behind an abstract element type is chosen per element there - a type chosen once from the first element resolves a mixed list as if it were homogeneous", "C06.G1~type dispatcher for the element type")
 	r.rule("C08.METADOM", "every reflect.Type recorded in or compared with Object.meta / Input.meta is derived from an object in the same way (all raw, or all pointer-stripped); parameters are followed to their in-package call sites")
 	c08MetaDom(c, r, "C08.METADOM")
 	r.rule("C08.SCAN", "the Go-type -> object-type lookup loop over the type table reaches the comparison with Object.meta for every *Object element (only the type assertion, nil tests and the range condition guard it)")
